@@ -718,6 +718,9 @@ use verif_harness::searchkit::*;
 
 const DETAIL: u8 = 0;
 const WATCHDOG_MS: u64 = 4000;
+/// Yen's k >= 2 often never returns (its own known defect, C13/C12): such runs are skipped and counted
+const YENS_WATCHDOG_MS: u64 = 1200;
+const MAX_YENS_HANGS: usize = 5;
 
 #[derive(Clone)]
 struct SCase {
@@ -730,6 +733,8 @@ struct SCase {
     cut: Option<Vec<usize>>,
     /// Some(k): run SearchAlgorithm::KspSingleVia { k, underlying = q.alg } instead of q.alg (no model line)
     ksp: Option<usize>,
+    /// with ksp = Some(k): SearchAlgorithm::Yens { k, underlying = q.alg } instead of KspSingleVia
+    yens: bool,
 }
 
 fn run_real(sc: &SCase, dir: &Path) -> Outcome {
@@ -750,7 +755,11 @@ fn run_real(sc: &SCase, dir: &Path) -> Outcome {
                 Some(k) => {
                     use routee_compass_core::algorithm::search::search_algorithm::SearchAlgorithm;
                     use routee_compass_core::model::network::VertexId;
-                    let alg = SearchAlgorithm::KspSingleVia { k, underlying: Box::new(search_algorithm(&sc3.q.alg)), similarity: None, termination: None };
+                    let alg = if sc3.yens {
+                        SearchAlgorithm::Yens { k, underlying: Box::new(search_algorithm(&sc3.q.alg)), similarity: None, termination: None }
+                    } else {
+                        SearchAlgorithm::KspSingleVia { k, underlying: Box::new(search_algorithm(&sc3.q.alg)), similarity: None, termination: None }
+                    };
                     let r = alg.run_vertex_oriented(VertexId(sc3.q.source), sc3.q.target.map(VertexId), &query_json(&sc3.q), &direction(sc3.q.dir), &si);
                     outcome_of(r)
                 }
@@ -759,7 +768,7 @@ fn run_real(sc: &SCase, dir: &Path) -> Outcome {
         .unwrap_or_else(|_| Outcome::status_only("Panic"));
         let _ = tx.send(o);
     });
-    match rx.recv_timeout(std::time::Duration::from_millis(WATCHDOG_MS)) {
+    match rx.recv_timeout(std::time::Duration::from_millis(if sc.yens { YENS_WATCHDOG_MS } else { WATCHDOG_MS })) {
         Ok(o) => o,
         Err(_) => Outcome::status_only("Hang"),
     }
@@ -767,7 +776,7 @@ fn run_real(sc: &SCase, dir: &Path) -> Outcome {
 
 fn scase_to_json(sc: &SCase) -> Value {
     json!({"family": sc.family, "world": world_to_json(&sc.w), "query": query_to_json(&sc.q), "nested": sc.nested,
-           "cfg": cfg_to_json(&sc.cfg), "fquery": enc(&sc.query), "cut": sc.cut, "ksp": sc.ksp})
+           "cfg": cfg_to_json(&sc.cfg), "fquery": enc(&sc.query), "cut": sc.cut, "ksp": sc.ksp, "yens": sc.yens})
 }
 fn scase_from_json(c: &Value) -> SCase {
     SCase {
@@ -779,10 +788,11 @@ fn scase_from_json(c: &Value) -> SCase {
         query: dec(&c["fquery"]),
         cut: serde_json::from_value(c["cut"].clone()).unwrap_or(None),
         ksp: c["ksp"].as_u64().map(|k| k as usize),
+        yens: c["yens"].as_bool().unwrap_or(false),
     }
 }
 
-fn add_scase(st: &mut Stream, sc: &SCase, dir: &Path) {
+fn add_scase(st: &mut Stream, sc: &SCase, dir: &Path) -> String {
     let id = st.next_id();
     let d = dir.join(format!("s{}", id));
     let o = run_real(sc, &d);
@@ -800,7 +810,7 @@ fn add_scase(st: &mut Stream, sc: &SCase, dir: &Path) {
     if sc.ksp.is_none() {
         terms.push(format!("search_M {} {}%Z {} {} {} {}", fuel, id, fr, coq_world(&sc.w, k), coq_query(&sc.q, k), DETAIL));
     }
-    terms.push(format!("search_S {} {}%Z {} {} {} {} {} {}", fuel, id, fr, coq_bool(sc.ksp.is_some()), coq_world(&sc.w, k), coq_query(&sc.q, k), coq_outcome(&o, k), DETAIL));
+    terms.push(format!("search_S {} {}%Z {} {} {} {} {} {}", fuel, id, fr, (if sc.ksp.is_none() { 0 } else if sc.yens { 2 } else { 1 }), coq_world(&sc.w, k), coq_query(&sc.q, k), coq_outcome(&o, k), DETAIL));
     let line = format!("I {} {}", id, show_outcome(&o, DETAIL));
     let mut desc = scase_to_json(sc);
     desc["id"] = json!(id);
@@ -809,7 +819,7 @@ fn add_scase(st: &mut Stream, sc: &SCase, dir: &Path) {
     st.count(&format!("status:{}", o.status));
     st.count(&format!("orient:{:?}", sc.q.orient));
     st.count(&format!("dir:{:?}", sc.q.dir));
-    st.count(&format!("alg:{}", match (sc.ksp, sc.q.alg) { (Some(_), _) => "ksp_single_via".to_string(), (None, Alg::Dijkstra) => "dijkstra".to_string(), (None, Alg::AStar(None)) => "astar(default)".to_string(), (None, Alg::AStar(Some(x))) => format!("astar({})", x) }));
+    st.count(&format!("alg:{}", match (sc.ksp, sc.q.alg) { (Some(_), _) if sc.yens => "yens".to_string(), (Some(_), _) => "ksp_single_via".to_string(), (None, Alg::Dijkstra) => "dijkstra".to_string(), (None, Alg::AStar(None)) => "astar(default)".to_string(), (None, Alg::AStar(Some(x))) => format!("astar({})", x) }));
     st.count(&format!("top:{}", cfg_kind(&sc.cfg)));
     for kd in ["road_class", "vehicle", "turn", "combined"] {
         if has_kind(&sc.cfg, kd) {
@@ -831,7 +841,12 @@ fn add_scase(st: &mut Stream, sc: &SCase, dir: &Path) {
     if (refused > 0 || has_kind(&sc.cfg, "turn")) && (rl >= 2 || ts >= 3 || o.status == "nopath") {
         st.mark_nontrivial(&scase_to_json(sc).to_string());
     }
+    if sc.yens {
+        st.count(&format!("yens_status:{}", o.status));
+        st.count(&format!("yens_routes:{}", o.routes.len().min(6)));
+    }
     st.case(terms, vec![line], desc);
+    o.status.clone()
 }
 
 fn refused_edges(sc: &SCase, dir: &Path) -> usize {
@@ -862,6 +877,7 @@ fn reopen_witness() -> SCase {
         query: json!({}),
         cut: None,
         ksp: None,
+        yens: false,
     }
 }
 
@@ -956,13 +972,13 @@ fn finding_witnesses() -> Vec<(&'static str, SCase)> {
         ("K_reopen", reopen_witness()),
         // the origin edge e0 has class 1, the query allows class 0 only
         ("K_query_edges", SCase { family: "corpus_K_query_edges".into(), w: chain.clone(), q: q(Orient::Edge, Dir::Forward, 0, 3), nested: false,
-                                  cfg: Cfg::RoadClass { lookup: vec![1, 0, 0, 0], mapping: vec![] }, query: json!({"road_classes": [0]}), cut: None, ksp: None }),
+                                  cfg: Cfg::RoadClass { lookup: vec![1, 0, 0, 0], mapping: vec![] }, query: json!({"road_classes": [0]}), cut: None, ksp: None, yens: false }),
         // restricted turn e1 -> e2; the reverse search from 4 to 0 drives it
         ("K_reverse_turn", SCase { family: "corpus_K_reverse_turn".into(), w: chain.clone(), q: q(Orient::Vertex, Dir::Reverse, 4, 0), nested: false,
-                                   cfg: Cfg::Turn { pairs: vec![(1, 2)] }, query: json!({}), cut: None, ksp: None }),
+                                   cfg: Cfg::Turn { pairs: vec![(1, 2)] }, query: json!({}), cut: None, ksp: None, yens: false }),
         // restricted turn e2 -> e3; the second single-via route is that turn
         ("K_ksp_turn", SCase { family: "corpus_K_ksp_turn".into(), w: diamond, q: q(Orient::Vertex, Dir::Forward, 0, 3), nested: false,
-                               cfg: Cfg::Turn { pairs: vec![(2, 3)] }, query: json!({}), cut: None, ksp: Some(3) }),
+                               cfg: Cfg::Turn { pairs: vec![(2, 3)] }, query: json!({}), cut: None, ksp: Some(3), yens: false }),
     ]
 }
 
@@ -976,8 +992,104 @@ fn write_corpus(a: &Args) {
     }
 }
 
+/// the network of seeded/C04-6: edge e6 is first validated after the allowed turn p1 -> e6 and is reached in a later
+/// spur search after the restricted turn p2 -> e6;  a0 0>1, b1 1>2, c2 2>3, d3 3>4, p1=4 1>5 (3), p2=5 2>5, e6 5>4, f7 5>4 (5)
+fn yens_shared_verdict_cases() -> Vec<SCase> {
+    let w = World::new(6, vec![(0, 1), (1, 2), (2, 3), (3, 4), (1, 5), (2, 5), (5, 4), (5, 4)], vec![1.0, 1.0, 1.0, 1.0, 3.0, 1.0, 1.0, 5.0]);
+    let turn = Cfg::Turn { pairs: vec![(5, 6)] };
+    let rc = Cfg::RoadClass { lookup: vec![1, 1, 1, 1, 2, 2, 2, 3], mapping: vec![] };
+    let veh = Vehicle { height: (4.0, 0), width: (2.5, 0), total_length: (20.0, 0), trailer_length: (13.5, 0), total_weight: (36.0, 1), axles: 5 };
+    let vehc = Cfg::Vehicle { rows: vec![(7, "maximum_height".into(), 15.0, "feet".into())] };
+    let mut v = vec![];
+    for alg in [Alg::AStar(Some(1.0)), Alg::Dijkstra, Alg::AStar(None)] {
+        for k in [2usize, 3] {
+            for (cfg, nested, query) in [
+                (turn.clone(), false, json!({})),
+                (Cfg::Combined(vec![rc.clone(), turn.clone()]), false, json!({"road_classes": [1, 2, 3]})),
+                (Cfg::Combined(vec![turn.clone(), rc.clone(), vehc.clone()]), false, json!({"road_classes": [1, 2, 3], "vehicle_parameters": veh.query()})),
+                (Cfg::Combined(vec![rc.clone(), Cfg::Combined(vec![vehc.clone(), turn.clone()])]), true, json!({"road_classes": [1, 2, 3], "vehicle_parameters": veh.query()})),
+            ] {
+                v.push(SCase { family: "yens_shared_verdict".into(), w: w.clone(),
+                               q: Query { alg, dir: Dir::Forward, orient: Orient::Vertex, source: 0, target: Some(4), query_wf: None },
+                               nested, cfg, query, cut: None, ksp: Some(k), yens: true });
+            }
+        }
+    }
+    v
+}
+
+/// a world on which Yen's has a chance to return: two parallel chains 0..L and L+1..2L+1 with rungs both ways and a few
+/// random extra edges, origin 0, destination L; underlying algorithms that cannot re-open a vertex (Dijkstra, A* with a
+/// zero table, A* weight 1/2 with the exact table), so that every restricted pair inside one search is a genuine leak
+fn random_yens_case(r: &mut Rng) -> SCase {
+    let l = 5 + r.below(3) as usize;
+    let n = 2 * (l + 1);
+    let mut edges: Vec<(usize, usize)> = vec![];
+    for i in 0..l {
+        edges.push((i, i + 1));
+        edges.push((l + 1 + i, l + 2 + i));
+    }
+    for i in 0..=l {
+        if r.chance(9, 10) {
+            edges.push((i, l + 1 + i));
+        }
+        if r.chance(9, 10) {
+            edges.push((l + 1 + i, i));
+        }
+        // skip edges along both chains
+        if i + 2 <= l && r.chance(1, 2) {
+            edges.push((i, i + 2));
+        }
+        if i + 2 <= l && r.chance(1, 2) {
+            edges.push((l + 1 + i, l + 3 + i));
+        }
+    }
+    for _ in 0..r.below(5) {
+        let (a, b) = (r.below(n as u64) as usize, r.below(n as u64) as usize);
+        if a != b {
+            edges.push((a, b));
+        }
+    }
+    if r.chance(1, 3) {
+        let e = *r.pick(&edges);
+        edges.push(e);
+    }
+    r.shuffle(&mut edges);
+    let cost = gen_costs(r, edges.len(), CostFamily::TieFree);
+    let mut w = World::new(n, edges, cost);
+    let (alg, hk) = match r.below(3) {
+        0 => (Alg::Dijkstra, HKind::Zero),
+        1 => (Alg::AStar(Some(1.0)), HKind::Zero),
+        _ => (Alg::AStar(Some(0.5)), HKind::Exact),
+    };
+    gen_heuristic(r, &mut w, Dir::Forward, Some(l), hk);
+    // frontier: always a turn model (5..20 % of the adjacent pairs, travel order), often inside combined
+    let mut pairs = vec![];
+    let pct = 3 + r.below(10);
+    for a in 0..w.edges.len() {
+        for b in 0..w.edges.len() {
+            if w.edges[a].1 == w.edges[b].0 && r.below(100) < pct {
+                pairs.push((a, b));
+            }
+        }
+    }
+    let turn = Cfg::Turn { pairs };
+    let m = w.edges.len();
+    let lookup: Vec<u8> = (0..m).map(|_| if r.chance(11, 12) { 0 } else { 1 }).collect();
+    let rc = Cfg::RoadClass { lookup, mapping: vec![("road".into(), 0), ("path".into(), 1)] };
+    let (cfg, nested, query) = match r.below(4) {
+        0 => (turn, false, json!({})),
+        1 => (Cfg::Combined(vec![rc, turn]), false, json!({"road_classes": ["road"]})),
+        2 => (Cfg::Combined(vec![turn, rc]), false, json!({"road_classes": [0, 1]})),
+        _ => (Cfg::Combined(vec![Cfg::None, Cfg::Combined(vec![turn, rc])]), true, json!({"road_classes": [0]})),
+    };
+    SCase { family: "random_yens".into(), w, q: Query { alg, dir: Dir::Forward, orient: Orient::Vertex, source: 0, target: Some(l), query_wf: None },
+            nested, cfg, query, cut: None, ksp: Some(2 + r.below(2) as usize), yens: true }
+}
+
 fn boundary_scases() -> Vec<SCase> {
     let mut v: Vec<SCase> = finding_witnesses().into_iter().map(|(_, sc)| sc).collect();
+    v.extend(yens_shared_verdict_cases());
     // the frontier_forbids_* shapes of searchkit with the real models
     let base = World::new(4, vec![(0, 1), (1, 2), (2, 3), (0, 3), (3, 2), (2, 1), (1, 0), (3, 0)], vec![1.0, 1.0, 1.0, 9.0, 1.0, 1.0, 1.0, 9.0]);
     let veh = Vehicle { height: (4.0, 0), width: (2.5, 0), total_length: (20.0, 0), trailer_length: (13.5, 0), total_weight: (36.0, 1), axles: 5 };
@@ -989,7 +1101,7 @@ fn boundary_scases() -> Vec<SCase> {
             for orient in [Orient::Vertex, Orient::Edge] {
                 let (s, t) = match orient { Orient::Vertex => (0, Some(3)), Orient::Edge => (if dir == Dir::Forward { 6 } else { 7 }, Some(if dir == Dir::Forward { 7 } else { 6 })) };
                 let q = Query { alg, dir, orient, source: s, target: t, query_wf: None };
-                let mk = |fam: &str, cfg: Cfg, query: Value, cut: Option<Vec<usize>>| SCase { family: fam.into(), w: base.clone(), q: q.clone(), nested: false, cfg, query, cut, ksp: None };
+                let mk = |fam: &str, cfg: Cfg, query: Value, cut: Option<Vec<usize>>| SCase { family: fam.into(), w: base.clone(), q: q.clone(), nested: false, cfg, query, cut, ksp: None, yens: false };
                 v.push(mk("class_forbids_short_path", rc.clone(), json!({"road_classes": ["road"]}), None));
                 v.push(mk("class_allows_all", rc.clone(), json!({}), None));
                 v.push(mk("vehicle_forbids_short_path", vehc.clone(), json!({"vehicle_parameters": veh.query()}), None));
@@ -1016,9 +1128,9 @@ fn random_scase(r: &mut Rng) -> SCase {
         let mut q2 = q.clone();
         q2.dir = Dir::Forward;
         let k = 2 + r.below(3) as usize;
-        return SCase { family: "random_ksp_single_via".into(), w, q: q2, nested, cfg, query, cut, ksp: Some(k) };
+        return SCase { family: "random_ksp_single_via".into(), w, q: q2, nested, cfg, query, cut, ksp: Some(k), yens: false };
     }
-    SCase { family: match fam { CostFamily::TieFree => "random_tie_free".into(), CostFamily::TieRich => "random_tie_rich".into(), _ => "random_long_haul".into() }, w, q, nested, cfg, query, cut, ksp: None }
+    SCase { family: match fam { CostFamily::TieFree => "random_tie_free".into(), CostFamily::TieRich => "random_tie_rich".into(), _ => "random_long_haul".into() }, w, q, nested, cfg, query, cut, ksp: None, yens: false }
 }
 
 const SHEADER: &str = "From Coq Require Import ZArith QArith List String Floats.\nFrom RC Require Import Base.Show Base.Num Base.Json Model.Units Model.Frontier Model.Search Model.SearchRun Model.FrontierRun.\nImport ListNotations Frontier FrontierRun.\nOpen Scope nat_scope.";
@@ -1038,10 +1150,15 @@ fn stream_search(a: &Args) {
         add_scase(&mut st, &sc, &dir);
     }
     let mut rng = Rng::new(a.seed);
+    let mut yens_hangs = 0usize;
     while st.next_id() < a.n {
         let mut r = rng.fork();
-        let sc = random_scase(&mut r);
-        add_scase(&mut st, &sc, &dir);
+        // one case in eight under Yen's (until its runs that never return have used up their budget)
+        let sc = if r.chance(1, 8) && yens_hangs < MAX_YENS_HANGS { random_yens_case(&mut r) } else { random_scase(&mut r) };
+        let status = add_scase(&mut st, &sc, &dir);
+        if sc.yens && status == "Hang" {
+            yens_hangs += 1;
+        }
     }
     let _ = std::fs::remove_dir_all(&dir);
     st.finish();
@@ -1062,7 +1179,7 @@ fn probe(a: &Args) {
     // edge-oriented: origin / destination edge forbidden by road class; chain 0->1->2->3->4, edges e0..e3
     let chain = World::new(5, vec![(0, 1), (1, 2), (2, 3), (3, 4)], vec![1.0, 1.0, 1.0, 1.0]);
     let eq = |s: usize, t: Option<usize>, dir: Dir| Query { alg: Alg::Dijkstra, dir, orient: Orient::Edge, source: s, target: t, query_wf: None };
-    let mk = |q: Query, cfg: Cfg, query: Value| SCase { family: "probe".into(), w: chain.clone(), q, nested: false, cfg, query, cut: None, ksp: None };
+    let mk = |q: Query, cfg: Cfg, query: Value| SCase { family: "probe".into(), w: chain.clone(), q, nested: false, cfg, query, cut: None, ksp: None, yens: false };
     show("EO origin edge e0 has forbidden class", &mk(eq(0, Some(3), Dir::Forward), Cfg::RoadClass { lookup: vec![1, 0, 0, 0], mapping: vec![] }, json!({"road_classes": [0]})));
     show("EO destination edge e3 has forbidden class", &mk(eq(0, Some(3), Dir::Forward), Cfg::RoadClass { lookup: vec![0, 0, 0, 1], mapping: vec![] }, json!({"road_classes": [0]})));
     show("EO interior edge e1 has forbidden class", &mk(eq(0, Some(3), Dir::Forward), Cfg::RoadClass { lookup: vec![0, 1, 0, 0], mapping: vec![] }, json!({"road_classes": [0]})));
@@ -1077,7 +1194,7 @@ fn probe(a: &Args) {
     show("VO reverse 4->0, restricted (2,1) search order", &mk(vq(4, Some(0), Dir::Reverse), Cfg::Turn { pairs: vec![(2, 1)] }, json!({})));
     // single-via KSP: diamond 0->1->3 (e0,e1), 0->2->3 (e2,e3), restricted turn (e2,e3) in travel order
     let diamond = World::new(4, vec![(0, 1), (1, 3), (0, 2), (2, 3)], vec![1.0, 1.0, 2.0, 2.0]);
-    let mut k = SCase { family: "probe".into(), w: diamond, q: vq(0, Some(3), Dir::Forward), nested: false, cfg: Cfg::Turn { pairs: vec![(2, 3)] }, query: json!({}), cut: None, ksp: Some(3) };
+    let mut k = SCase { family: "probe".into(), w: diamond, q: vq(0, Some(3), Dir::Forward), nested: false, cfg: Cfg::Turn { pairs: vec![(2, 3)] }, query: json!({}), cut: None, ksp: Some(3), yens: false };
     show("KSP single-via k=3, restricted (2,3)", &k);
     k.cfg = Cfg::Turn { pairs: vec![(0, 1)] };
     show("KSP single-via k=3, restricted (0,1)", &k);
